@@ -72,7 +72,7 @@ Inductive mst := MN | M1 (idx:nat) (a:slot) | M2 (idx:nat) (a b:slot) (got:list 
 Definition mheld (st:mst) : nat := match st with MN => 0 | M1 _ _ => 1 | M2 _ _ _ got => 2 + length got end.
 Fixpoint meta_scan (p:nat) (i:nat) (st:mst) (acc:list (nat * N)) (lines:list slot) : list (nat * N) * mst :=
   match lines with
-  | [] => (rev acc, st)
+  | [] => (frev acc, st)
   | x :: t =>
       match st with
       | MN => if is_marker x then meta_scan p (S i) (M1 i x) acc t else meta_scan p (S i) MN acc t
